@@ -37,6 +37,11 @@ func (x *FnCtx) call(fr *Frame, st *State, in ssa.Value, c *ssa.CallCommon) Valu
 		x.safetyOb("nil", site+"/recv", st, x.tb.Ne(recv, x.tb.IntC(0)))
 		key := shortTypeName(c.Value.Type()) + "." + c.Method.Name()
 		full := append([]Value{recv}, args...)
+		if fr.ctr != nil && fr.depth == 0 {
+			if cands, ok := fr.ctr.Dispatch[strings.TrimPrefix(site, fr.prefix)]; ok {
+				return x.dispatchCall(fr, st, recv, full, cands, site, resT)
+			}
+		}
 		if ctr := x.eng.specs.Contracts[key]; ctr != nil {
 			return x.applyContract(fr, st, ctr, nil, c.Signature(), c.Value.Type(), full, site, resT)
 		}
@@ -66,7 +71,18 @@ func (x *FnCtx) call(fr *Frame, st *State, in ssa.Value, c *ssa.CallCommon) Valu
 	}
 	switch callee := c.Value.(type) {
 	case *ssa.Function:
-		return x.callFunction(fr, st, callee, args, nil, site, resT)
+		variant := ""
+		for _, a := range c.Args {
+			if mi, ok := a.(*ssa.MakeInterface); ok {
+				tn := shortTypeName(mi.X.Type())
+				if i := strings.LastIndex(tn, "."); i >= 0 {
+					tn = tn[i+1:]
+				}
+				variant = tn
+				break
+			}
+		}
+		return x.callFunction(fr, st, callee, args, nil, site, resT, variant)
 	case *ssa.MakeClosure:
 		var bs []Value
 		for _, b := range callee.Bindings {
@@ -85,8 +101,22 @@ func (x *FnCtx) call(fr *Frame, st *State, in ssa.Value, c *ssa.CallCommon) Valu
 	return x.unknownCall(st, "dynamic call", args, resT, site)
 }
 
-func (x *FnCtx) callFunction(fr *Frame, st *State, callee *ssa.Function, args []Value, binds []Value, site string, resT types.Type) Value {
+func (x *FnCtx) callFunction(fr *Frame, st *State, callee *ssa.Function, args []Value, binds []Value, site string, resT types.Type, variants ...string) Value {
+	variant := ""
+	if len(variants) > 0 {
+		variant = variants[0]
+	}
 	key := funcKey(callee)
+	// contract variant selected by the concrete type behind an interface argument: key@Type
+	if variant != "" {
+		if ctr := x.eng.specs.Contracts[key+"@"+variant]; ctr != nil {
+			var recvT types.Type
+			if callee.Signature.Recv() != nil {
+				recvT = callee.Signature.Recv().Type()
+			}
+			return x.applyContract(fr, st, ctr, callee, callee.Signature, recvT, args, site, resT)
+		}
+	}
 	if ctr := x.eng.specs.Contracts[key]; ctr != nil && !ctr.Inline {
 		var recvT types.Type
 		if callee.Signature.Recv() != nil {
@@ -124,7 +154,7 @@ func (fr *Frame) parent() *Frame { return frameParents[fr] }
 
 func (x *FnCtx) inline(fr *Frame, st *State, callee *ssa.Function, args []Value, binds []Value, site string) Value {
 	x.usedInlined[funcKey(callee)] = true
-	nf := &Frame{fn: callee, regs: map[ssa.Value]Value{}, params: args, depth: fr.depth + 1,
+	nf := &Frame{fn: callee, params: args, depth: fr.depth + 1,
 		prefix: site + ">", binds: binds}
 	frameParents[nf] = fr
 	defer delete(frameParents, nf)
@@ -1025,4 +1055,84 @@ func dynFieldName(v ssa.Value) string {
 		return ""
 	}
 	return st.Field(fa.Field).Name()
+}
+
+// dispatchCall: interface call whose dynamic type is one of the listed module types
+// (obligation: it is); each candidate is called through its own contract, results are merged.
+func (x *FnCtx) dispatchCall(fr *Frame, st *State, recv *Term, full []Value, cands []string, site string, resT types.Type) Value {
+	tb := x.tb
+	pkg := pkgOf(fr.fn).Path()
+	var tags []*Term
+	var fns []*ssa.Function
+	for _, c := range cands {
+		f := x.eng.fnByKey[pkg+"."+c]
+		if f == nil || f.Signature.Recv() == nil {
+			x.errs = append(x.errs, fmt.Sprintf("%s: dispatch candidate %s not found", site, c))
+			continue
+		}
+		fns = append(fns, f)
+		tags = append(tags, tb.Eq(x.typeOf(recv), x.typeTag(f.Signature.Recv().Type())))
+	}
+	x.safetyOb("dispatch", site+"/dispatch", st, tb.Or(tags...))
+	var es []edge
+	var vals []Value
+	var conds []*Term
+	for i, f := range fns {
+		s := st.Clone()
+		s.pc = tb.And(s.pc, tags[i])
+		v := x.callFunction(fr, s, f, full, nil, fmt.Sprintf("%s/as:%s", site, cands[i]), resT)
+		es = append(es, edge{nil, s})
+		vals = append(vals, v)
+		conds = append(conds, s.pc)
+	}
+	if len(es) == 0 {
+		return x.unknownCall(st, "dispatch", full, resT, site)
+	}
+	merged := x.mergeStates(es)
+	*st = *merged
+	return x.mergeValues(conds, vals)
+}
+
+// dispatchCands: candidates declared for this interface call site (top frame only).
+func (x *FnCtx) dispatchCands(fr *Frame, in *ssa.Call) []string {
+	if fr.ctr == nil || fr.depth != 0 || !in.Call.IsInvoke() {
+		return nil
+	}
+	return fr.ctr.Dispatch[fr.siteOrd[in]]
+}
+
+// dispatchFork: one successor state per candidate implementation (no merging).
+func (x *FnCtx) dispatchFork(fr *Frame, st *State, in *ssa.Call, cands []string) []*State {
+	tb := x.tb
+	c := in.Common()
+	site := fr.prefix + fr.siteOrd[in]
+	recv := x.term(fr, st, c.Value)
+	x.safetyOb("nil", site+"/recv", st, tb.Ne(recv, tb.IntC(0)))
+	var args []Value
+	for _, a := range c.Args {
+		args = append(args, x.val(fr, st, a))
+	}
+	full := append([]Value{recv}, args...)
+	pkg := pkgOf(fr.fn).Path()
+	var tags []*Term
+	var fns []*ssa.Function
+	for _, cn := range cands {
+		f := x.eng.fnByKey[pkg+"."+cn]
+		if f == nil || f.Signature.Recv() == nil {
+			x.errs = append(x.errs, fmt.Sprintf("%s: dispatch candidate %s not found", site, cn))
+			continue
+		}
+		fns = append(fns, f)
+		tags = append(tags, tb.Eq(x.typeOf(recv), x.typeTag(f.Signature.Recv().Type())))
+	}
+	x.safetyOb("dispatch", site+"/dispatch", st, tb.Or(tags...))
+	var out []*State
+	for i, f := range fns {
+		s := st.Clone()
+		s.pc = tb.And(s.pc, tags[i])
+		v := x.callFunction(fr, s, f, full, nil, fmt.Sprintf("%s/as:%s", site, cands[i]), in.Type())
+		x.setReg(s, in, v)
+		out = append(out, s)
+	}
+	return out
 }
